@@ -47,6 +47,7 @@ type Decl struct {
 	Under   *Ty
 	Priv    bool // has unexported fields
 	Methods string
+	Src     string // when set: the Go declaration as it is written in the corpus package (e.g. an alias of a generic instance); Under is its structure
 }
 
 type Env struct{ Decls []*Decl }
